@@ -509,7 +509,7 @@ func TestVerifC09Wired(t *testing.T) {
 			hosts = append(hosts, h)
 			fmt.Fprintf(&file, "{\"ip\":\"%s\",\"port\":%d}\n", h.ip, h.srv.port)
 		}
-		tmo := []int{100, 200, 300}[rng.Intn(3)]
+		tmo := []int{100, 200}[rng.Intn(2)]
 		run.Case(fmt.Sprintf("wired%03d", i), map[string]interface{}{"targets": file.String(), "timeout_ms": tmo})
 		o := &socksCmdOpts{timeout: time.Duration(tmo) * time.Millisecond}
 		o.ipFile = writeTemp(t.TempDir(), "targets.jsonl", file.String())
@@ -564,7 +564,21 @@ func TestVerifC09Wired(t *testing.T) {
 		for k := range got {
 			run.Violation("wired:foreign-record", fmt.Sprintf("record for %s, which was never probed", k), file.String())
 		}
-		// -t drives both timeouts: the slowest target costs at most t + 3t per probe, probes/workers rounds
+		// -t drives BOTH timeouts: seen from the server, a connection the client got stuck on must be
+		// given up within 3 data timeouts (one write, two reads) + slack
+		if stallW := rl; stallW != nil {
+			for _, h := range hosts {
+				h.srv.wg.Wait()
+				for _, cn := range h.srv.snapshot() {
+					life := cn.ended.Sub(cn.accepted)
+					if bound := 3*time.Duration(tmo)*time.Millisecond + time.Second; life > bound && !cn.ended.IsZero() {
+						run.Violation("wired:timeout-flag-not-applied", fmt.Sprintf("-t %d ms: the server at %s:%d saw the probe's connection stay open for %v (> 3 x %d ms + 1 s): the flag does not reach the data timeout", tmo, h.ip, h.srv.port, life, tmo), file.String())
+					}
+					run.Count("wired_connection_lifetimes_checked", 1)
+				}
+			}
+		}
+		// the slowest target costs at most t + 3t per probe, probes/workers rounds
 		rounds := (nh + o.workers - 1) / o.workers
 		if bound := time.Duration(rounds)*4*time.Duration(tmo)*time.Millisecond + 300*time.Millisecond + 3*time.Second; dur > bound {
 			run.Violation("wired:time-bound", fmt.Sprintf("scan of %d targets with -t %d ms and %d workers took %v (> %v)", nh, tmo, o.workers, dur, bound), file.String())
